@@ -189,6 +189,9 @@ def main() -> int:
         for ob in harness_errors + vacuous:
             log(f'HARNESS-ERROR: {ob.name}: {ob.detail[:300]}')
         return HARNESS_ERROR
+    if claims and not confirmed:
+        log('HARNESS-ERROR: none of the claim obligations could be decided (all inconclusive): nothing was verified')
+        return HARNESS_ERROR
     return 0
 
 
